@@ -267,8 +267,24 @@ func runC18(c *Ctx) {
 	}
 
 	// Combine: the returned closure stops at the first failing step and returns its error
-	if comb := c.mustFn(rel, "Combine"); comb != nil && len(comb.AnonFuncs) == 1 {
-		cl := comb.AnonFuncs[0]
+	var combFn *ssa.Function
+	if comb := c.mustFn(rel, "Combine"); comb != nil {
+		if len(comb.AnonFuncs) == 1 {
+			combFn = comb.AnonFuncs[0]
+		} else {
+			// the function Combine returns may also be a method value over the step list (procChain(fns).run)
+			ts, _ := c.Trace(comb, TraceConfig{})
+			for _, t := range ts {
+				if t.End == EndReturn && len(t.Ret) == 1 && t.Ret[0].Kind == KClosure {
+					if f, isF := t.Ret[0].Ref.(*ssa.Function); isF {
+						combFn = f
+					}
+				}
+			}
+		}
+	}
+	if combFn != nil {
+		cl := combFn
 		cons := "gormx.Combine"
 		ts, complete := c.Trace(cl, TraceConfig{})
 		if !complete {
